@@ -10,15 +10,24 @@ from .loader import Repo, AnalysisError
 from .report import Check
 
 
+def clear_caches():
+    """Drop the per-function caches (they pin the parsed trees)."""
+    from . import callgraph, cfg, dataflow
+    callgraph._cg_cache.clear()
+    cfg._cache.clear()
+    dataflow._reach_cache.clear()
+
+
 def run_check(prop, tier='quick', overlay=None, write=True, quiet=False,
-              root=None):
+              root=None, repo=None):
     """Run one property's rules; returns the Check (status in .status;
-    2 = analysis error, with .error set)."""
+    2 = analysis error, with .error set).  ``repo``: an already parsed tree
+    to analyse (several properties on one variant share the parse)."""
     from .rules import RULES
-    repo = None
     ck = None
     try:
-        repo = Repo(root=root, overlay=overlay)
+        if repo is None:
+            repo = Repo(root=root, overlay=overlay)
         ck = Check(prop, repo, tier)
         RULES[prop](ck)
         ck.finish(write=write, quiet=quiet)
